@@ -237,6 +237,9 @@ def _viol(e, seed, key, label, k2, msg, kind):
     f["into_gaussian"] = any(s[0] == "G" for s in subs_terms)
     # an affine (expression) value that mentions a name which the same substitution also binds
     mentioned = {x[1] for _, v in e[2] if v[0] in ("B", "U") for x in lang.subterms(v) if x[0] == "V" and x[1] in keys}
+    # keys that are free inputs of ANOTHER key's value (of any kind: tensor, expression, variable)
+    free_in_other = {k for k in keys for k2, v in e[2] if k2 != k and k in lang.ty(v).inputs}
+    f["key_free_in_other_value_bound_to"] = sorted({v[0] for k, v in e[2] if k in free_in_other})
     f["expression_value_mentions_substituted_key"] = bool(mentioned)
     # what the mentioned keys are themselves bound to (B = another expression, T/N = a constant, V = a renaming)
     f["mentioned_key_bound_to"] = sorted({v[0] for k, v in e[2] if k in mentioned})
